@@ -108,6 +108,15 @@ func (a *fxAnalyzer) propagate(fns []*ssa.Function) {
 								if !sh && a.isAnchorType(x.Type()) {
 									sh = true
 								}
+								// a local cell (results spilled because of a defer, variables captured
+								// by reference): what was stored into it comes back out of it
+								if al, ok := x.X.(*ssa.Alloc); ok && !sh && pointerLike(x.Type()) {
+									for _, r := range core.Referrers(al) {
+										if st, ok := r.(*ssa.Store); ok && st.Addr == ssa.Value(al) && a.isShared(st.Val) {
+											sh = true
+										}
+									}
+								}
 							}
 						case *ssa.Slice:
 							sh = a.isShared(x.X)
